@@ -56,11 +56,12 @@ _add(
     rule="(a) interp(extrap(x)) = x for the 10 shipped pairs at 11 sample times in [0, dt] (linear pairs: open interval), "
          "linear interpolation bracket laws; (b) per distribution and parameter set: exp(log density) = density, "
          "trapezoid / cumulative sum of the density = CDF and -> 1, logcdf = log cdf, numeric moments = mean / variance, "
-         "density = its textbook definition (Poisson), params_mv round trip, with float64-tensor and Python-float "
-         "arguments; (c) ISI of random rasters (time-first and time-last, ragged, empty); (d) Victor-Purpura laws on "
+         "density = its textbook definition (Poisson), params_mv round trip (and the returned parameters pass validate), "
+         "with float64-tensor and Python-float arguments, including narrow distributions (scale 1e-4 .. 1e-1) whose "
+         "variance is compared relatively only; (c) ISI of random rasters (time-first and time-last, ragged, empty); (d) Victor-Purpura laws on "
          "triples of spike-time vectors and against an independent dynamic programme. One evaluation = one "
          "(pair, sample time) / (distribution, parameters) / raster / triple; distinct = abstractions of those.",
-    required=["roundtrip_laws", "adjusted_bracket_laws", "linear_bracket_laws", "dist_laws", "isi_trains_checked", "vp_laws", "validity_queries"],
+    required=["roundtrip_laws", "adjusted_bracket_laws", "linear_bracket_laws", "dist_laws", "isi_trains_checked", "vp_laws", "validity_queries", "narrow_moment_checks"],
     floor={"quick": 100, "thorough": 200},
     text="Held on every input explored: algebraic laws that tie the numerical helpers to each other and to their "
          "definitions are evaluated on the real functions over dense grids and random inputs; a law that fails is "
